@@ -292,7 +292,10 @@ def forall(dims, f):
     if any_sym(*dims):
         idx = [fresh_int('i') for _ in dims]
         return Implies(And(*[in_range(i, 0, d) for i, d in zip(idx, dims)]), f(*idx))
-    return all(f(*idx) for idx in itertools.product(*[range(int(d)) for d in dims]))
+    vals = [f(*idx) for idx in itertools.product(*[range(int(d)) for d in dims])]
+    if any_sym(*vals):
+        return And(*vals)
+    return all(bool(v) for v in vals)
 
 
 def forall_hyp(dims, f, pats=None):
